@@ -4,6 +4,8 @@ import (
 	"context"
 	"fmt"
 	"os"
+	"strings"
+	"sync/atomic"
 	"time"
 
 	ds "github.com/ipfs/go-datastore"
@@ -38,6 +40,8 @@ func fullStackCleanRestart(r *vk.Run, id int) {
 	dir := root + "/agg"
 	_ = os.MkdirAll(dir, 0o755)
 	nodeKeys := world.NewKeys("p2p-agg")
+	var stopAtHeightWrite atomic.Bool // the stop request is raised right when the chain height is made durable
+	var curCancel atomic.Pointer[context.CancelFunc]
 	start := func() (*stackNode, error) {
 		cfg := fullStackConfig(dir, true, "")
 		nk := &key.NodeKey{PrivKey: nodeKeys.Priv, PubKey: nodeKeys.Pub}
@@ -46,8 +50,19 @@ func fullStackCleanRestart(r *vk.Run, id int) {
 			return nil, err
 		}
 		database := world.NewMemDS(image)
+		database.OnWrite = func(rec world.WriteRec) {
+			for _, k := range rec.Keys {
+				if strings.HasSuffix(k, "/t") && stopAtHeightWrite.CompareAndSwap(true, false) {
+					// between committing a block and handing it to the P2P layer
+					if c := curCancel.Load(); c != nil {
+						(*c)()
+					}
+				}
+			}
+		}
 		metrics, _ := single.NopMetrics()
 		ctx, cancel := context.WithCancel(context.Background())
+		curCancel.Store(&cancel)
 		seq, err := single.NewSequencerWithQueueSize(ctx, logger, database, da, []byte("verif-chain"), time.Second, metrics, true, 100)
 		if err != nil {
 			cancel()
@@ -109,8 +124,20 @@ func fullStackCleanRestart(r *vk.Run, id int) {
 		accepted = ld
 	}
 	dBefore := agg.fn.VerifBlockManager().GetDAIncludedHeight()
-	// clean stop: Run returns (a finalization call in flight fails with the context)
-	agg.cancel()
+	// clean stop: Run returns (a finalization call in flight fails with the context). In two rounds of three the stop
+	// request arrives exactly when the next block's height has been made durable - after the commit, before the block is
+	// handed to the P2P layer
+	if id%3 != 2 {
+		stopAtHeightWrite.Store(true)
+		if !waitFor(10*time.Second, func() bool { return !stopAtHeightWrite.Load() }) {
+			stopAtHeightWrite.Store(false)
+			agg.cancel()
+		} else {
+			r.Count("fullstack_stop_between_commit_and_broadcast", 1)
+		}
+	} else {
+		agg.cancel()
+	}
 	select {
 	case <-agg.done:
 		r.Hit("node-run-returns")
@@ -133,6 +160,19 @@ func fullStackCleanRestart(r *vk.Run, id int) {
 		}
 	}()
 	r.Hit("clean-restart-keeps-inclusion-marks")
+	hRestart := height(agg2)
+	r.Hit("clean-restart-produces-again")
+	if !waitFor(30*time.Second, func() bool { return height(agg2) >= hRestart+5 }) {
+		diag := ""
+		select {
+		case err := <-agg2.done:
+			diag = fmt.Sprintf(" (the restarted node's Run has returned: %v)", err)
+			agg2.done <- err
+		default:
+		}
+		r.Violation("invariants-under-concurrency", fmt.Sprintf("clean-restart round: 30 s after the restart on the same database and directory the aggregator has produced %d block(s) (height %d -> %d; block time 20 ms)%s: it cannot produce on what its own clean shutdown left", height(agg2)-hRestart, hRestart, height(agg2), diag), map[string]any{"round": id})
+		return
+	}
 	reached := waitFor(30*time.Second, func() bool { return agg2.fn.VerifBlockManager().GetDAIncludedHeight() >= accepted })
 	dAfter := agg2.fn.VerifBlockManager().GetDAIncludedHeight()
 	if dAfter < dBefore {
